@@ -20,7 +20,8 @@ RULE = ("cases are strings: (tokens) every sequence of <=4 (thorough <=5) tokens
         "exhaustively; (trunc) every prefix and every one-character deletion of one document "
         "per writer and per examples/ file; (text) Hypothesis text mixing markers, digits, line "
         "breaks and printable Unicode; (own) outputs of all writers on generated caption sets "
-        "whose text avoids the other formats' markers. Non-trivial: the string has at most two "
+        "whose text avoids the other formats' markers; (atheris) inputs kept by coverage-guided "
+        "libFuzzer campaigns (fresh corpus, oracle inside the target), re-judged here. Non-trivial: the string has at most two "
         "lines, or is a truncated document, or at least one reader's detect() accepts it; for "
         "'own': every case (writer output with metacharacter text). Distinct = distinct JSON. "
         'Own-output sets include cues shorter than a MicroDVD frame early in the file (only '
@@ -232,8 +233,22 @@ def check_own(case, rec):
     rec.nontrivial(True)
 
 
+def fuzz_chunks(tier):
+    import os
+    seed = int(os.environ.get("VERIF_SEED", "1") or 1)
+    return [{"shard": k, "seed": seed, "tier": tier} for k in range(4 if tier == "quick" else 16)]
+
+
+def fuzz_expand(chunk):
+    from ..runner import fuzz_cases
+    runs = 40000 if chunk["tier"] == "quick" else 3000000
+    for data in fuzz_cases("c20", chunk["tier"], chunk["shard"], chunk["seed"], runs):
+        yield {"s": data.decode("utf-8", "ignore"), "fuzz": True}
+
+
 def subchecks(tier):
     return [
+        Sub("atheris", check_string, chunks=fuzz_chunks, expand=fuzz_expand),
         Sub("tokens", check_string, chunks=token_chunks, expand=token_expand, exhaustive=True),
         Sub("trunc", check_string, chunks=trunc_chunks, expand=trunc_expand, exhaustive=True),
         Sub("text", check_string, strategy=text_strategy, examples=(20000, 400000),
